@@ -33,7 +33,37 @@ fn list(v: &Value) -> Vec<Value> {
 
 fn path_str(v: &Value) -> Result<syn::Path, String> {
     let s = if v.is_string() { v.as_str().unwrap().to_string() } else { settings::render_ty(v) };
-    syn::parse_str::<syn::Path>(&s).map_err(|e| format!("unparsable path {s}: {e}"))
+    // parsed in type position so that parenthesised generics `Foo(A, B)` are accepted by the parser
+    match syn::parse_str::<syn::Type>(&s) {
+        Ok(syn::Type::Path(tp)) if tp.qself.is_none() => Ok(tp.path),
+        Ok(_) => Err(format!("not a path: {s}")),
+        Err(e) => Err(format!("unparsable path {s}: {e}")),
+    }
+}
+
+/// Source / target of a substitute call: text form, or - for parenthesised generics `Foo(A, B)`, which syn's path parser does
+/// not produce from text - the path is built programmatically from the structured form.
+fn sub_path(call: &Value, which: &str) -> Result<syn::Path, String> {
+    let form = call[format!("{which}Form")].as_str().unwrap_or("ok");
+    if form == "paren" {
+        let tree = &call[format!("{which}T")];
+        let mut bare = tree.clone();
+        bare["args"] = json!([]);
+        let mut p = path_str(&bare)?;
+        let inputs: syn::punctuated::Punctuated<syn::Type, syn::Token![,]> = list(&tree["args"])
+            .iter()
+            .map(|a| syn::parse_str::<syn::Type>(&settings::render_ty(a)).map_err(|e| e.to_string()))
+            .collect::<Result<_, _>>()?;
+        let last = p.segments.last_mut().ok_or("empty path")?;
+        last.arguments = syn::PathArguments::Parenthesized(syn::ParenthesizedGenericArguments {
+            paren_token: Default::default(),
+            inputs,
+            output: syn::ReturnType::Default,
+        });
+        Ok(p)
+    } else {
+        path_str(&call[which])
+    }
 }
 
 /// Apply one builder call to the settings; returns the result kind.
@@ -63,8 +93,8 @@ fn apply_call(st: &mut TypeGeneratorSettings, call: &Value) -> Result<String, St
             Ok("ok".into())
         }
         "insert" | "insert_if_not_exists" => {
-            let src = path_str(&call["src"])?;
-            let dst = path_str(&call["dst"])?;
+            let src = sub_path(call, "src")?;
+            let dst = sub_path(call, "dst")?;
             let dst = match absolute_path(dst) {
                 Ok(d) => d,
                 Err(e) => return Ok(kind_name(&e.kind).into()),
@@ -82,8 +112,8 @@ fn apply_call(st: &mut TypeGeneratorSettings, call: &Value) -> Result<String, St
         "extend" => {
             let mut elems = vec![];
             for e in list(&call["elems"]) {
-                let src = path_str(&e["src"])?;
-                let dst = path_str(&e["dst"])?;
+                let src = sub_path(&e, "src")?;
+                let dst = sub_path(&e, "dst")?;
                 match absolute_path(dst) {
                     Ok(d) => elems.push((src, d)),
                     Err(e) => return Ok(kind_name(&e.kind).into()),
